@@ -123,6 +123,13 @@ func c20Directed(full bool) []c20Case {
 			out = append(out, c20Case{Ops: ops})
 		}
 	}
+	// the released commit is rewritten, then the next release is cut: both tags go to the new HEAD
+	for _, annot := range []bool{false, true} {
+		for _, back := range []int{0, 1} {
+			out = append(out, c20Case{Ops: []c20Op{{Kind: "commit"}, {Kind: "commit"}, {Kind: "tag", Arg: "v3.1.0", Annot: annot, Back: back}, {Kind: "tag", Arg: "v3", Annot: annot, Back: back},
+				{Kind: "amend"}, {Kind: "version", Arg: "v3.2.0"}, {Kind: "tagger", DryRun: "false"}, {Kind: "commit"}, {Kind: "amend"}, {Kind: "version", Arg: "v3.2.1"}, {Kind: "tagger", DryRun: "false"}}})
+		}
+	}
 	for _, dry := range []string{"", "true", "false"} {
 		for _, dirty := range []string{"", "untracked", "modified", "staged-new", "staged-modified", "deleted"} {
 			for _, req := range []string{"v3.3.0", "v3.2.0", "v3.1.0", "banana"} {
@@ -156,7 +163,7 @@ func c20Gen(r *core.Rng) c20Case {
 		case k == 12 && r.Chance(1, 2):
 			cs.Ops = append(cs.Ops, c20Op{Kind: "pack"})
 		case k == 12:
-			cs.Ops = append(cs.Ops, c20Op{Kind: core.Pick(r, []string{"detach", "detach", "attach"})})
+			cs.Ops = append(cs.Ops, c20Op{Kind: core.Pick(r, []string{"detach", "detach", "attach", "amend", "amend"})})
 		case k == 11 && r.Chance(1, 2):
 			// a branch named like a tag the tool handles
 			cs.Ops = append(cs.Ops, c20Op{Kind: "branch", Arg: core.Pick(r, []string{"v3", "v4", "v3.2.0", "release"})})
@@ -350,6 +357,13 @@ func evalC20(c *core.Ctx, cs c20Case, id string) Outcome {
 				g.try("tag", "-f", "-a", "-m", op.Arg, op.Arg, target)
 			default:
 				g.try("tag", "-f", op.Arg, target)
+			}
+		case "amend":
+			// HEAD moves sideways: tags on the old commit are no longer ancestors of HEAD
+			if st := g.git("status", "--porcelain=v1", "-uall"); st == "" && commits > 0 {
+				g.t++
+				g.git("commit", "-q", "--amend", "--allow-empty", "-m", fmt.Sprintf("amended %d", g.t))
+				out.Tags = append(out.Tags, "fault:head-amended")
 			}
 		case "branch":
 			g.git("branch", "-f", op.Arg, "HEAD")
